@@ -181,6 +181,20 @@ def history_shard(kind, conn, nio, T, dt, sign, mode, delay_cfg, sigpat):
                 if part is not None and bool((part < -1e-9).any()):
                     tally.violation(f"negative-part:{kind}:{nm}", {**case, "step": t}, f"{nm} part has negative entries")
                     break
+            # routing: the potentiating part is exactly the sum of the positively signed terms, the depressing part the rest
+            pos_ref = spec.to_weight_space((rp.clamp_min(0) + rn.clamp_min(0))[: t + 1].sum(0))
+            neg_ref = spec.to_weight_space(-(rp.clamp_max(0) + rn.clamp_max(0))[: t + 1].sum(0))
+            for nm, part, pref in (("pos", pos, pos_ref), ("neg", neg, neg_ref)):
+                pv = z if part is None else part.to(F64)
+                dd = ((pv - pref).abs() * mask).reshape(B, -1).amax(1)
+                bi = (dd > 1e-5).nonzero().reshape(-1)
+                if len(bi):
+                    b = int(bi[0])
+                    tally.violation(f"routing:{kind}:{sign}:{nm}", {**case, "step": t, "pre_history": [pre_bits[u][b] for u in range(t + 1)],
+                                    "post_history": [post_bits[u][b] for u in range(t + 1)]},
+                                    f"step {t}: {nm} part {pv[b].reshape(-1).tolist()} but the {'positively' if nm == 'pos' else 'negatively'} signed terms sum to "
+                                    f"{pref[b].reshape(-1).tolist()}", pref[b].tolist(), pv[b].tolist())
+                    break
         tally.mark("nontrivial", (kind, conn, nio, T, dt, sign, mode, dmode, None if delays is None else tuple(delays.reshape(-1).tolist()), sigpat))
     tally.add("histories", B * len(variants))
     tally.sample({"trainer": kind, "conn": conn, "T": T, "dt": dt, "sign": sign, "trace_mode": mode, "delay": delay_cfg, "histories_as_batch": B})
